@@ -649,6 +649,9 @@ class Nodes:
             typed_value = value
         except SyntaxError:
             typed_value = value
+        except TypeError:
+            # e.g. "{[1]:2}" is literal syntax for an unhashable key
+            typed_value = value
         return typed_value
 
     @staticmethod
